@@ -480,8 +480,12 @@ func (lb *LoadBalancer) AddBackend(backendCfg config.BackendConfig) error {
 		ExpectContinueTimeout: 1 * time.Second,
 
 		// Performance optimizations
-		ForceAttemptHTTP2:  true,  // Use HTTP/2 when available
-		DisableCompression: false, // Let backend handle compression
+		ForceAttemptHTTP2: true, // Use HTTP/2 when available
+		// Let client and backend negotiate compression end to end: with this false the
+		// transport adds "Accept-Encoding: gzip" to requests that have none and gunzips
+		// the answer, so the backend sees a header the client never sent and the
+		// client receives a re-coded response
+		DisableCompression: true,
 	}
 
 	proxy.Transport = transport
